@@ -286,7 +286,7 @@ func RunProperty(cfg *PropConfig, root string, opts RunOpts) (*PropRun, error) {
 				if err != nil {
 					return nil, err
 				}
-				o := &Obl{Name: "lemma:" + filepath.Base(f), Kind: "lemma", Func: "spec", Expect: "unsat", Src: f, raw: commonPrelude + eng.prelude + string(data)}
+				o := &Obl{Name: "lemma:" + filepath.Base(f), Kind: "lemma", Func: "spec", Expect: "unsat", Src: f, raw: header + string(data)}
 				if strings.Contains(string(data), ";@expect sat") {
 					o.Expect = "sat"
 				}
